@@ -302,6 +302,22 @@ type target struct {
 	mk   func() interface{}
 }
 
+// generic is the target's shape without the concrete element types.
+func (t target) generic() string {
+	v := reflect.TypeOf(t.mk())
+	var sb []string
+	for i := 0; i < 3 && v != nil; i++ {
+		sb = append(sb, v.Kind().String())
+		switch v.Kind() {
+		case reflect.Ptr, reflect.Slice, reflect.Array, reflect.Map:
+			v = v.Elem()
+		default:
+			v = nil
+		}
+	}
+	return strings.Join(sb, ".")
+}
+
 func ptrTo(t reflect.Type) target {
 	return target{name: "*" + t.String(), mk: func() interface{} { return reflect.New(t).Interface() }}
 }
